@@ -17,6 +17,9 @@ def run(res, tier):
     ev, bad, kn, s2 = _dp.run_direct(
         rng, n_dir, [('helpers', lambda c, r, kp: direct.c16_helpers(c, r, kp))],
         gen_kw=dict(max_len=3, max_depth=2))
+    # a bare lifting function fitted again with another state / input split: dimensions, transform and helpers of a fresh one
+    n4, bad4 = direct.leaf_refit(rng, helpers=True)
+    ev += n4; bad = bad + [dict(b, test='leaf_refit') for b in bad4]
     res.coverage.update(
         evaluations=len(batch.meta) + ev, distinct_nontrivial=distinct + ev,
         rule=('M2: lift, retract, lift_state, lift_input, retract_state, retract_input for call-time episode_feature in '
